@@ -169,7 +169,8 @@ def validate_volume(b, names, datas, number):
 
 
 NAMES1 = ["a.dat", "b b.bin", "café.txt", "日本語", "clef\U0001D11E.mus", "e", "UPPER.DAT", "x.par.bak", "ü\U0001F600ß",
-          "tail\U0001F600", "\U0001D11E", "\U0001F600\U0001F601", "\uffff\ue000.x"]   # astral characters first, last, alone, adjacent
+          "tail\U0001F600", "\U0001D11E", "\U0001F600\U0001F601", "\uffff\ue000.x",
+          "name\u4e00", "x\uac00", "voila\u0300", "\u0100\u0100"]   # last UTF-16 unit has a zero LOW byte (looks like NUL padding to a sloppy reader)   # astral characters first, last, alone, adjacent
 SIZES1 = [0, 1, 7, 100, 16383, 16384, 20000]
 
 
